@@ -3,6 +3,8 @@
 #![warn(missing_docs, missing_debug_implementations, unreachable_pub)]
 
 mod queue;
+#[cfg(feature = "verif-hooks")]
+pub(crate) mod verif;
 
 use std::cell::Cell;
 use std::error;
